@@ -1,6 +1,6 @@
 rc_target("c18_lht", flavour="asan")
 rc_target("c18_cache", flavour="asan")
-plan("C18", [T("c18_lht", 30000, 200000), T("c18_cache", 30000, 200000), TT(GCC("c18_cache"), 8000)], min_nt=20000,
+plan("C18", [T("c18_lht", 30000, 200000), TT(GCC("c18_lht"), 8000), T("c18_cache", 30000, 200000), TT(GCC("c18_cache"), 8000)], min_nt=20000,
      rule="stateful op sequences against a reference ordered map (vector of id/key*/value*) with per-object destructor counters",
      technique="model-based property testing (rapidcheck): op sequences vs. reference ordered map; whole iteration list, "
                "lookup of every id and every destructor counter compared after every step",
